@@ -109,15 +109,19 @@ func FormatNumber(qty decimal.Decimal, format NumberFormat) string {
 	}
 
 	if format.ThousandsSep != "" && len(intPart) > 3 {
-		var groups []string
-		for len(intPart) > 3 {
-			groups = append([]string{intPart[len(intPart)-3:]}, groups...)
-			intPart = intPart[:len(intPart)-3]
+		// groups of three from the right; written left to right in one pass
+		// (prepending group by group is quadratic in the number of digits)
+		var grouped strings.Builder
+		first := len(intPart) % 3
+		if first == 0 {
+			first = 3
 		}
-		if len(intPart) > 0 {
-			groups = append([]string{intPart}, groups...)
+		grouped.WriteString(intPart[:first])
+		for i := first; i < len(intPart); i += 3 {
+			grouped.WriteString(format.ThousandsSep)
+			grouped.WriteString(intPart[i : i+3])
 		}
-		intPart = strings.Join(groups, format.ThousandsSep)
+		intPart = grouped.String()
 	}
 
 	var result strings.Builder
